@@ -350,6 +350,12 @@ class FormulaManager(object):
           - (Optionally) a mpq or mpz object
         """
         # TODO could this be improved by storing only the relative Fraction (or int maybe) in the real_constants dict?
+        # The type is validated before looking the value up: values of
+        # other types can be equal to (and hash like) a cached one
+        if not (is_pysmt_fraction(value) or isinstance(value, tuple) or \
+                is_python_rational(value)):
+            raise PysmtTypeError("Invalid type in constant. The type was:" + \
+                                 str(type(value)))
         if value in self.real_constants:
             return self.real_constants[value]
 
@@ -371,6 +377,11 @@ class FormulaManager(object):
 
     def Int(self, value: int) -> FNode:
         """Return a constant of type INT."""
+        # The type is validated before looking the value up: values of
+        # other types (True, 1.0, Fraction(1)) are equal to a cached 1
+        if not (is_pysmt_integer(value) or is_python_integer(value)):
+            raise PysmtTypeError("Invalid type in constant. The type was:" + \
+                                 str(type(value)))
         if value in self.int_constants:
             return self.int_constants[value]
 
